@@ -482,8 +482,13 @@ def portfolios_all(draw, classes=None, min_assets=1, max_assets=5, max_nodes=3, 
 NODE_POOL = ["1", "11", "N1", "N11", "n", "nn", "0", "10", "a", "a1", "node 1", "1_internal_1"]
 
 
-def rename_nodes(draw, spec):
-    """injective renaming of all node names from an adversarial pool (in place)"""
+COLLIDING = [("1", "11"), ("N1", "N11"), ("n", "nn"), ("1", "10"), ("0", "10"), ("a", "a1"), ("N1", "N10"), ("1", "12")]
+
+
+def rename_nodes(draw, spec, collide=False):
+    """injective renaming of all node names from an adversarial pool (in place); with collide=True the first two
+    nodes get a pair of names of which one is a prefix of the other (keys like name + step number then coincide
+    from step 10 on)"""
     names = []
 
     def visit(a):
@@ -497,6 +502,12 @@ def rename_nodes(draw, spec):
     for a in spec["assets"]:
         visit(a)
     new = draw(st.lists(st.sampled_from(NODE_POOL), min_size=len(names), max_size=len(names), unique=True))
+    if collide and len(names) >= 2:
+        pair = list(draw(st.sampled_from(COLLIDING)))
+        if draw(st.booleans()):
+            pair.reverse()
+        rest = [x for x in NODE_POOL + ["m%d" % i for i in range(len(names))] if x not in pair]
+        new = pair + rest[:len(names) - 2]
     m = dict(zip(names, new))
 
     def fix(a):
